@@ -289,7 +289,9 @@ class NPX:
             cx = _c.cur()
             pos = z3.Not(z3.fpIsNegative(x.z))
             step = z3.If(pos == z3.BoolVal(up), bx + 1, bx - 1)
-            cx.assume(z3.Implies(z3.Not(z3.fpIsZero(x.z)), br == step))
+            cx.assume(z3.Implies(z3.And(z3.Not(z3.fpIsZero(x.z)), z3.Not(z3.fpIsInf(x.z)),
+                                        z3.Not(z3.fpIsNaN(x.z))), br == step))
+            cx.assume(z3.Implies(z3.Or(z3.fpIsInf(x.z), z3.fpIsNaN(x.z)), r.z == x.z))
             cx.assume(z3.Implies(z3.fpIsZero(x.z), br == z3.BitVecVal(1 if up else (1 << 63) + 1, 64)))
             return r
         return _np.nextafter(x, y)
